@@ -2278,6 +2278,27 @@ mut("ok-add-weak-as-ptr", "benign", [], "Weak::as_ptr added: a raw pointer is no
     #[inline]
     pub fn ptr_eq(&self, other: &Self) -> bool {""", 1)])
 
+# breaks on top of the eighth round's refactorings: the tolerance added for them must not blind the rules
+combo("R26-5-merge-drops-link", ["C02", "C12"], "the Window helper merges the node stamp twice and the link stamp not at all", "R26-5",
+      [ed(U, "Window::open().latest([node_epoch, link_epoch, cnt_curr.epoch()])", "Window::open().latest([node_epoch, node_epoch, cnt_curr.epoch()])")],
+      ["CW-CASCADE-MERGE"])
+combo("R26-5-age-1", ["C02", "C12"], "the Window helper is asked for an age of 1", "R26-5",
+      [ed(U, "window.is_older_by(state.epoch(), 3)", "window.is_older_by(state.epoch(), 1)")], ["CW-CASCADE-DECISION"])
+combo("R26-1-token-missing", ["C01", "C05"], "the closure given to replace_word adds 1 even from zero", "R26-1",
+      [ed(U, "old.add_strong(if old.strong() == 0 { 2 } else { 1 })", "old.add_strong(1)")], ["CW-TOKEN"])
+combo("R26-1-mark-without-zero", ["C04", "C05"], "the closure given to replace_word marks DESTRUCTED whatever the count", "R26-1",
+      [ed(U, "(old.strong() == 0).then(|| old.with_destructed(true))", "Some(old.with_destructed(true))")],
+      ["CW-ATTEMPT-RECHECK", "CW-DESTRUCT-ONCE"])
+combo("R27-1-no-ptr-eq-retry", ["C08"], "the const-generic retry loop reports every failure", "R27-1",
+      [ed(S, "                Err(seen) if seen.ptr_eq(compared) => compared = seen,\n", "")], ["CAS-EPOCH-BLIND"])
+combo("R25-2-returns-after-helping", ["C17", "C15"], "the inlined push returns after helping the tail along (element lost)", "R25-2",
+      [ed(QF, """                self.swing_tail(onto, next, guard);
+                continue;""", """                self.swing_tail(onto, next, guard);
+                return;""")], ["EBR-QUEUE"])
+combo("R25-2-link-relaxed", ["C17"], "the inlined push links with a Relaxed CAS", "R25-2",
+      [ed(QF, ".compare_exchange(RawShared::null(), new, Release, Relaxed, guard)", ".compare_exchange(RawShared::null(), new, Relaxed, Relaxed, guard)")],
+      ["ORD-QUEUE"])
+
 # behaviour-preserving refactorings written by sub-agents told to keep every interleaving's behaviour (selftest/refactors/)
 for f in sorted(glob.glob(os.path.join(HERE, "refactors", "*.diff"))):
     name = os.path.basename(f)[:-5]
